@@ -8,7 +8,7 @@ _NOTE = ("the transition table is extracted on every run from the real fsm objec
 PROPS = {
     "C10": dict(engines=["core"], props_file="Props/C10.v", checkers=["Oracles/CoreC10.v"],
                 checker_fns={"core": "Oracles.CoreC10:c10_check_all"},
-                variants=["", "gang"], coq_scan=["Core/AppLife.v", "Core/AppLifeProofs.v", "Core/AppEvents.v", "Core/AppEventsProofs.v", "Oracles/CoreC10.v", "Props/C10.v", "Generated/AppFsm.v", "Core/Obs.v", "Base"], level="proof",
+                variants=["gangdeep", "gang", "", "preemptdeep"], coq_scan=["Core/AppLife.v", "Core/AppLifeProofs.v", "Core/AppEvents.v", "Core/AppEventsProofs.v", "Oracles/CoreC10.v", "Props/C10.v", "Generated/AppFsm.v", "Core/Obs.v", "Base"], level="proof",
                 assumptions=["looplab/fsm v1.0.3 Event semantics (unknown (state,event) leaves the state; same-state transition returns NoTransitionError and records nothing) as re-stated in Core/AppLife.handle_event",
                              "application ids may be re-used after termination; the update stream of an id restarts at its next accepted answer"],
                 manifest=dict(category="proof", text="Coq: every transition of the REAL application state machine (table extracted by exhaustive enumeration of objects.NewAppState on every run) is a documented move and every documented move exists (fsm_documented); for every sequence of events from New the visited states, the state log and the reported state follow the documented life cycle (trace_documented), terminal states only expire; release-path model of the state decisions (removeAllocationInternal / removeAsksInternal) with the Completed-with-live-allocation defect exhibited as a refuted clause. Oracle on every observed history: state logs and UpdatedApplication streams are documented chains, Completed applications are clean (own lists and every node), idle applications complete, terminated applications leave their queue and reject asks",
